@@ -1,70 +1,41 @@
 /-
-  C01 — exactly one highest-salience satisfied rule fires per cycle.
-  Decision logic of the salience scan (`pickRunner`, engine/GruleEngine.go) stated outright, for all
-  integer saliences and every iteration order; trace-level statements are in `Proofs/Trace.lean`
-  and re-exported here.
+  C01 — a rule fires only when its condition holds on the current facts.
+
+  `execute` is the model of GruleEngine.ExecuteWithContext *with* the working memory (snapshot-keyed
+  memo tables, the substring-built invalidation index, ResetVariable/Reset/ResetAll as in the code);
+  `refRun` is the memo-free reference loop. `holds c st r` is the condition evaluated from scratch.
 -/
-import GruleModel.Engine
+import GruleModel.Proofs.Side
 namespace Grule.C01
+open Grule
 
-/-- the runner is one of the candidates -/
-theorem C01_runner_is_candidate (r : RuleEntry) (rs : List RuleEntry) : pickRunner r rs ∈ r :: rs := by
-  induction rs generalizing r with
-  | nil => simp [pickRunner]
-  | cons p rest ih =>
-    unfold pickRunner
-    split
-    · have := ih p
-      simp only [List.mem_cons] at this ⊢
-      rcases this with h | h
-      · right; left; exact h
-      · right; right; exact h
-    · have := ih r
-      simp only [List.mem_cons] at this ⊢
-      rcases this with h | h
-      · left; exact h
-      · right; right; exact h
+/-- **C01 (under `Side`).** For every rule set, fact state, MaxCycle, iteration-order oracle,
+    cancellation point and whatever the instance remembers from earlier calls: the `exec` events the
+    listeners see are exactly the firings of the reference run, and each of those is a firing of an
+    entry of the knowledge base that is neither removed nor retracted and whose `when` condition,
+    evaluated from scratch on the facts of that moment, is true. -/
+theorem C01_fire_sound {c : Cfg} (rc : RunCfg) (inst : Instance) (st : Store) (h : Side c inst.entries) :
+    execList (execute rc c inst st).trace = firedNames (refRun rc c inst st).fired ∧
+    ∀ f ∈ (refRun rc c inst st).fired,
+      f.2.1 ∈ inst.entries ∧ f.2.1.deleted = false ∧ visRetracted f.2.2 f.2.1 = false ∧
+      holds c f.2.2.st f.2.1.rule = true := by
+  obtain ⟨_, htr, _⟩ := execute_refines h.pure h.inj rc inst st h.wf h.frame
+  refine ⟨?_, refRun_fired_good rc c inst st⟩
+  rw [htr]
+  exact refRun_exec rc c inst st
 
-/-- auxiliary: the scan never lowers the salience it holds -/
-theorem pickRunner_ge_start (r : RuleEntry) (rs : List RuleEntry) :
-    r.rule.salience ≤ (pickRunner r rs).rule.salience := by
-  induction rs generalizing r with
-  | nil => simp [pickRunner]
-  | cons p rest ih =>
-    unfold pickRunner
-    split
-    · rename_i h; exact Int.le_trans (Int.le_of_lt h) (ih p)
-    · exact ih r
-
-/-- the runner's salience is maximal among all candidates of the cycle (any `Int`, hence the whole
-    int32 range, negative and equal values included) -/
-theorem C01_max_salience (r : RuleEntry) (rs : List RuleEntry) :
-    ∀ p ∈ r :: rs, p.rule.salience ≤ (pickRunner r rs).rule.salience := by
-  induction rs generalizing r with
-  | nil => intro p hp; simp at hp; subst hp; simp [pickRunner]
-  | cons q rest ih =>
-    intro p hp
-    unfold pickRunner
-    split
-    · rename_i h
-      simp only [List.mem_cons] at hp
-      rcases hp with hp | hp | hp
-      · subst hp; exact Int.le_trans (Int.le_of_lt h) (pickRunner_ge_start q rest)
-      · subst hp; exact pickRunner_ge_start p rest
-      · exact ih q p (by simp [hp])
-    · rename_i h
-      simp only [List.mem_cons] at hp
-      rcases hp with hp | hp | hp
-      · subst hp; exact pickRunner_ge_start p rest
-      · subst hp; exact Int.le_trans (Int.not_lt.mp h) (pickRunner_ge_start r rest)
-      · exact ih r p (by simp [hp])
-
-/-- non-vacuity: three candidates with saliences 0, 5, 5 — the first maximal one (B) runs -/
-example :
-    let mk := fun (n : String) (s : Int) => ({ key := n, rule := { name := n, desc := "", salience := s, cond := default, acts := [] } } : RuleEntry)
-    (pickRunner (mk "A" 0) [mk "B" 5, mk "C" 5]).key = "B" := by decide
+/-- the same for the engine run without working memory (`memo := false`): no `FrameHyp` needed; this is
+    the statement the property oracle evaluates on the real engine -/
+theorem C01_fire_sound_memo_free {c : Cfg} (hm : c.memo = false) (rc : RunCfg) (inst : Instance) (st : Store)
+    (hp : MethodsPure c) (hi : SnapInj) (hw : WFEntries inst.entries) :
+    execList (execute rc c inst st).trace = firedNames (refRun rc c inst st).fired := by
+  obtain ⟨_, htr, _⟩ := execute_refines hp hi rc inst st hw (frameHyp_memo_off hm _)
+  rw [htr]
+  exact refRun_exec rc c inst st
 
 end Grule.C01
 
-#print axioms Grule.C01.C01_runner_is_candidate
-#print axioms Grule.C01.C01_max_salience
+#print axioms Grule.C01.C01_fire_sound
+#print axioms Grule.C01.C01_fire_sound_memo_free
+#print axioms Grule.execute_refines
+#print axioms Grule.evalE_sound
